@@ -1,6 +1,10 @@
 """C07 — reading any bytes either fails cleanly or yields a safe, well-formed table.
-Proof: PsV/Props/C07.lean (C07_read_total, C07_error_leaves_empty, WF_implies_C04, readFixed_sound, counterexamples for the code
-before the repair).  Model: PsV/Model/FitsRead.lean (`readFixed` = read_fits_core with fixes/C07-1.diff, `cleanup` = the storage guard of commit 907b348, `destroy` = ~splinetable).
+Proof: PsV/Props/C07.lean (C07_read_total, WF_implies_C04, readFixed_sound, counterexamples for the code before the repair;
+the object step by step: C07_guarded_refines, C07_rejected_leaves_empty, C07_accepted_object, C07_reuse; composition with C04/C05 for
+every accepted table: C07_accepted_lookup_safe, C07_accepted_eval_reads_owned, C07_read_then_use_safe, C07_accepted_eval_wf; bytes:
+C07_bytes_framed, C07_bytes_total).  Model: PsV/Model/FitsRead.lean (`readFixed` = read_fits_core with fixes/C07-1.diff, `cleanup` = the storage guard of commit 907b348, `destroy` = ~splinetable).
+Second model run (driver C07, command L): the step-by-step reader on the object (`readGuarded`) and 12 deterministic lookup probes on
+`Table.lookupAxes` of the table read, compared with the real searchcenters on the table read_fits returned (harness field lk=).
 Tie: mutated files → real read_fits_mem / read_fits / constructor / C wrappers (each file in a forked child under ASan/UBSan with a
 hang timeout) vs `readFixed (decodeFits bytes)` whenever the Lean decoder accepts the bytes and the store is inside the scope of the
 abstract cfitsio model; oracle (independent of the model): every returned table is well-formed (fitscommon.wf_table), every failed
